@@ -145,12 +145,8 @@ impl<'a> Command<'a> {
             READS_DONE += 1;
             let mut r = any_rec(ALLOWED);
             // a single-command mask yields a concrete selector
-            let mut b = 0u8;
-            while b < 18 {
-                if ALLOWED == (1u32 << b) {
-                    r.sel = b;
-                }
-                b += 1;
+            if ALLOWED.count_ones() == 1 {
+                r.sel = ALLOWED.trailing_zeros() as u8;
             }
             if let Some(k) = FIX_LKIND {
                 r.lkind = k;
